@@ -145,7 +145,7 @@ class C10(Check):
                 }
             )
         ops = []
-        n_ops = rng.randint(4, 40)
+        n_ops = rng.randint(4, 40) if tier != "thorough" or rng.random() < 0.8 else rng.randint(80, 200)
         style = rng.choice(["mixed", "mixed", "coupled_loop", "eval_heavy"])
         if rng.random() < 0.3:
             ops.append({"op": "step", "body": rng.randrange(nb), "dt": 0.1})  # time step before any evaluation
@@ -164,7 +164,7 @@ class C10(Check):
                     ops.append({"op": "flow", "sub": prng.sub_seed(rng)} if rng.random() < 0.6 else {"op": "flow", "uniform": [rng.uniform(-2, 2) for _ in range(dim)]})
                 if rng.random() < 0.5:
                     ops.append({"op": "move", "body": b, "sub": prng.sub_seed(rng)})
-                if len(ops) > 60:
+                if len(ops) > (60 if n_ops <= 40 else 400):
                     break
                 continue
             r = rng.random()
